@@ -309,6 +309,33 @@ func (r *Run) eval(e *Env, x *SX) *Val {
 			srt = args[1].String()
 		}
 		return opaque(r.heapArr(e.st, name, srt))
+	case "heapframe":
+		// (heapframe "array name" ref...): every pre-existing object other than the listed ones is unchanged
+		name := args[0].Atom
+		args = args[1:]
+		elem := "String"
+		if name != "Hb" {
+			if len(args) == 0 {
+				r.toolErr("%s: (heapframe name elemsort ref...) needs the element sort", e.ctx)
+				return boolVal("true")
+			}
+			elem = args[0].String()
+			args = args[1:]
+		}
+		if e.old == nil {
+			r.toolErr("%s: heapframe needs a pre-state", e.ctx)
+			return boolVal("true")
+		}
+		cur := r.heapArr(e.st, name, elem)
+		old := r.heapArr(e.old, name, elem)
+		conds := []string{app(">", "x!h", "0")}
+		for _, a := range args {
+			conds = append(conds, not(app("=", "x!h", r.evalTerm(e, a))))
+		}
+		if cur == old {
+			return boolVal("true")
+		}
+		return boolVal(fmt.Sprintf("(forall ((x!h Int)) (=> %s (= (select %s x!h) (select %s x!h))))", and(conds...), cur, old))
 	case "forall", "exists", "lambda":
 		ne := e.with(nil)
 		var binds []string
